@@ -47,11 +47,22 @@ pub struct Acc {
     pub n_fails: u64,
     pub fails_by: std::collections::BTreeMap<String, u64>,
     pub maxima: std::collections::BTreeMap<String, f64>,
+    pub clauses: Vec<(String, u64)>,
+    clause_last: usize,
 }
 
 impl Acc {
     pub fn check(&mut self, cond: bool, clause: &str, site: &str, input: impl FnOnce() -> String, detail: impl FnOnce() -> String) {
         self.checks += 1;
+        if self.clause_last < self.clauses.len() && self.clauses[self.clause_last].0 == clause {
+            self.clauses[self.clause_last].1 += 1;
+        } else if let Some(i) = self.clauses.iter().position(|e| e.0 == clause) {
+            self.clauses[i].1 += 1;
+            self.clause_last = i;
+        } else {
+            self.clauses.push((clause.to_string(), 1));
+            self.clause_last = self.clauses.len() - 1;
+        }
         if !cond {
             self.n_fails += 1;
             let key = format!("{}|{}", clause, site);
@@ -76,6 +87,9 @@ pub fn merge(s: &mut crate::session::Session, accs: Vec<Acc>) -> std::collection
         s.evaluations += a.cases;
         s.nontrivial_distinct += a.cases;
         s.oracle_checks += a.checks;
+        for (k, n) in &a.clauses {
+            s.count_clause(k, *n);
+        }
         for (k, v) in a.maxima {
             let e = maxima.entry(k).or_insert(f64::NEG_INFINITY);
             if v > *e || v.is_nan() {
